@@ -6,8 +6,8 @@ Two layers (DESIGN Appendix C):
 * buffered layer — `call` is ONE invocation `self._parse1(self.buf, self.charpos)` of the current
   scanner on the rest of the current buffer (regex search over the buffer, slice appended to
   `_curtoken`, code after the match), `runLoop` is the `while not self._tokens` loop of
-  `nexttoken` with `fillbuf` (chunks of `BUFSIZ` bytes) and the EOF flush (exactly one more call
-  on the one-byte buffer `"\n"`); fuel counts scanner calls.
+  `nexttoken` with `fillbuf` (chunks of `BUFSIZ` bytes) and the EOF flush (the scanners are fed the
+  one-byte buffer `"\n"` until it is consumed); fuel counts scanner calls.
 * byte automaton — `stepByte` consumes exactly one byte (following at most two non-consuming
   scanner hand-overs), `foldBytes` folds it over the input; `specLex` is the buffer-free
   token sequence.  `Props/C14.lean` proves `run b data = specLex data` for every `b ≥ 1`.
@@ -312,18 +312,20 @@ def call (st : St) (rest : Bytes) (pos : Nat) : CallRes :=
 
 /-- The `while not self._tokens` loop of `nexttoken`, iterated until PSEOF is raised, with all
     tokens collected.  `rest` = unread part of the buffer, `file` = unread part of the stream,
-    `b` = BUFSIZ.  `none` = fuel exhausted (one unit per scanner call). -/
-def runLoop (b : Nat) : Nat → St → Bytes → Bytes → Nat → Option (List PTok)
-  | 0, _, _, _, _ => none
-  | f + 1, st, rest, file, pos =>
+    `b` = BUFSIZ.  When `fillbuf` raises PSEOF the scanners are fed the one-byte buffer `"\n"` until
+    one consumes it (`eof` = that flush is under way; `file` is empty then), after which the next
+    `nexttoken` raises PSEOF.  `none` = fuel exhausted (one unit per scanner call). -/
+def runLoop (b : Nat) : Nat → Bool → St → Bytes → Bytes → Nat → Option (List PTok)
+  | 0, _, _, _, _, _ => none
+  | f + 1, eof, st, rest, file, pos =>
     -- fillbuf
     let buf := if rest.isEmpty then file.take b else rest
     let file' := if rest.isEmpty then file.drop b else file
     match buf with
-    | [] => some (call st [10] pos).toks      -- PSEOF: one call on b"\n", then eof
+    | [] => if eof then some [] else runLoop b f true st [10] [] pos
     | _ :: _ =>
       let r := call st buf pos
-      match runLoop b f r.st r.rest file' r.pos with
+      match runLoop b f eof r.st r.rest file' r.pos with
       | none => none
       | some ts => some (r.toks ++ ts)
 
@@ -331,7 +333,7 @@ def fuelFor (data : Bytes) : Nat := 3 * data.length + 6
 
 /-- All tokens `PSBaseParser(BytesIO(data))` yields with `BUFSIZ = b` until PSEOF. -/
 def run (b : Nat) (data : Bytes) : Option (List PTok) :=
-  runLoop b (fuelFor data) St.init [] data 0
+  runLoop b (fuelFor data) false St.init [] data 0
 
 /-! ### Byte automaton -/
 
@@ -360,10 +362,8 @@ def foldBytes (st : St) : Bytes → Nat → St × List PTok
     let r2 := foldBytes r1.1 t (pos + 1)
     (r2.1, r1.2 ++ r2.2)
 
-/-- Buffer-free token sequence: the byte automaton over the input, then the EOF flush. -/
-def specLex (data : Bytes) : List PTok :=
-  let r := foldBytes St.init data 0
-  r.2 ++ (call r.1 [10] data.length).toks
+/-- Buffer-free token sequence: the byte automaton over the input followed by the flushed newline. -/
+def specLex (data : Bytes) : List PTok := (foldBytes St.init (data ++ [10]) 0).2
 
 /-! ### Canonical text form (driver) -/
 
